@@ -70,9 +70,9 @@ M("c01-create-vm-drops-callback", ["C01"], RR,
   "            self.flags,\n            self._poll_callback,\n", "            self.flags,\n            None,\n",
   [("C01", "C01-R4", "RegexVM")])
 M("c01-search-untranslated", ["C01", "C20"], VM,
-  "            try:\n                vm_regex = regex_internal._create_vm()\n                result = vm_regex.search(s, 0)\n                return result.index if result else -1\n            except RegexTimeoutError:\n                raise TimeLimitError(\"Regex execution timeout\")\n            except RegexStackOverflow:\n                raise JSRangeError(\"Regular expression too complex\")",
-  "            vm_regex = regex_internal._create_vm()\n            result = vm_regex.search(s, 0)\n            return result.index if result else -1",
-  [("C01", "C01-R5", r"search:vm_regex\.search"), ("C20", "C20-R3a", r"search:vm_regex\.search")])
+  "                regex_internal.lastIndex = saved\n                return result.index if result else -1\n            except RegexTimeoutError:\n                raise TimeLimitError(\"Regex execution timeout\")\n            except RegexStackOverflow:\n                raise JSRangeError(\"Regular expression too complex\")",
+  "                regex_internal.lastIndex = saved\n                return result.index if result else -1\n            except RegexStackOverflow:\n                raise JSRangeError(\"Regular expression too complex\")",
+  [("C01", "C01-R5", r"search:regex_internal\.exec"), ("C20", "C20-R3a", r"search:regex_internal\.exec")])
 M("c01-translate-to-jserror", ["C01"], VM,
   "            try:\n                return re.test(string)\n            except RegexTimeoutError:\n                raise TimeLimitError(\"Regex execution timeout\")",
   "            try:\n                return re.test(string)\n            except RegexTimeoutError:\n                raise JSError(\"Regex execution timeout\")",
@@ -621,7 +621,7 @@ M("c12-test-does-not-adopt", ["C12"], VM,
   "            string = to_string(args[0]) if args else \"undefined\"\n            try:\n                return re.test(string)",
   [("C12", "C12-R5", "test_fn|JSRegExp deadline")])
 M("c12-replace-uses-stored-callback", ["C12"], VM,
-  "                    regex_internal = self._adopt_regex(pattern)\n", "                    regex_internal = pattern._internal\n",
+  "            internal = self._adopt_regex(regex)\n", "            internal = regex._internal\n",
   [("C12", "C12-R5", "unadopted|JSRegExp deadline")])
 M("c01-deadline-factory-ignores-limit", ["C01"], VM,
   "        def check_timeout() -> bool:\n            \"\"\"Return True if time limit exceeded (to abort regex).\"\"\"\n            return time.monotonic() - self.start_time > self.time_limit\n\n        return check_timeout\n",
@@ -936,7 +936,7 @@ S("seed-C15-d", ["C15", "C12"], "seeded/C15-d/patch.diff", [("C15", "C15-R4", "_
 TP("t-regex-program-cache", ALL_PROPS, "selftest/patches/t-regex-program-cache.diff", note="the same cache keyed by every flag the parser and compiler read (repaired C15-d)")
 S("seed-C18-c", ["C18"], "seeded/C18-c/patch.diff", [("C18", "C18-R11", "unary")], note="Math natives through one wrapper that maps every ValueError to NaN: the logarithms lose -Infinity at their pole")
 TP("t-math-unary-wrapper", ALL_PROPS, "selftest/patches/t-math-unary-wrapper.diff", note="the same wrapper with the pole passed in and answered before the host call (repaired C18-c)")
-S("seed-C04-c", ["C04", "C01", "C10", "C20"], "seeded/C04-c/patch.diff", [("C04", "C04-R1", "RegexStackOverflow|RegexTimeoutError|_run"), ("C01", "C01-R5", "replace"), ("C10", "C10-R1b", "replace"), ("C20", "C20-R3a", "replace")], note="regex limit conversion folded into one wrapper; replaceAll reaches replace without it", silent=("C16",))
+S("seed-C04-c", ["C04", "C01", "C10", "C20"], "seeded/C04-c/patch.diff", [("C04", "C04-R1", "RegexStackOverflow|RegexTimeoutError|_run"), ("C01", "C01-R5", "regexp_matches"), ("C10", "C10-R1b", "regexp_matches"), ("C20", "C20-R3a", "regexp_matches")], note="regex limit conversion folded into one wrapper; replaceAll reaches replace (and through it the matcher) without it", silent=("C16",))
 TP("t-regex-limits-wrapper", ALL_PROPS, "selftest/patches/t-regex-limits-wrapper.diff", note="the same wrapper applied to every native that runs the matcher, replaceAll included (repaired C04-c)")
 S("seed-C01-d", ["C01", "C02"], "seeded/C01-d/patch.diff", [("C01", "C01-R1", "loop"), ("C02", "C02-R1a", "loop")], note="limit check moved to safepoints; the do-while back edge (JUMP_IF_TRUE) has none")
 TP("t-limit-check-at-safepoints", ALL_PROPS, "selftest/patches/t-limit-check-at-safepoints.diff", note="limit check at every backward jump the compiler can emit and at every frame push instead of per instruction (repaired C01-d)")
@@ -1109,3 +1109,11 @@ S("seed-C17-f", ["C17"], "seeded/C17-f/patch.diff", [("C17", "C17-R14", "set_fn"
 S("seed-C19-f", ["C19"], "seeded/C19-f/patch.diff", [("C19", "C19-R8", "pattern")], note="own JSON string quoting with a nothing-to-escape fast path anchored with `$`: one trailing line feed is copied raw", silent=("C12", "C15", "C18"))
 TP("t-json-quote-own", ALL_PROPS, "selftest/patches/t-json-quote-own.diff", note="the same quoting with the fast path anchored by \\\\Z (repaired C19-f)")
 S("seed-C20-f", ["C20"], "seeded/C20-f/patch.diff", [("C20", "C20-R10", "search")], note="search through the regex's own exec with lastIndex saved and restored; the no-match exit returns before the restore")
+M("c20-search-on-raw-matcher", ["C20"], VM,
+  "                saved = regex_internal.lastIndex\n                regex_internal.lastIndex = 0\n                result = regex_internal.exec(s)\n                regex_internal.lastIndex = saved\n",
+  "                result = regex_internal._create_vm().search(s, 0)\n",
+  [("C20", "C20-R11", "search")], note="fix 33cb6fa reverted for search: the raw matcher ignores the sticky flag")
+M("c20-search-restore-skipped", ["C20"], VM,
+  "                result = regex_internal.exec(s)\n                regex_internal.lastIndex = saved\n                return result.index if result else -1\n",
+  "                result = regex_internal.exec(s)\n                if result is None:\n                    return -1\n                regex_internal.lastIndex = saved\n                return result.index\n",
+  [("C20", "C20-R10", "search")], note="the no-match exit of search returns before lastIndex is put back")
